@@ -198,10 +198,10 @@ func (p *StreamPool) getConnection(k key, end bool, ts time.Time, tcp *layers.TC
 	conn, half, rev = p.newConnection(k, s, ts)
 	conn2, half2, rev2 := p.getHalf(k)
 	if conn2 != nil {
-		if conn2.key != k {
-			panic("FIXME: other dir added in the meantime...")
-		}
-		// FIXME: delete s ?
+		// Another assembler added this connection (in either direction) in
+		// the meantime: use it (getHalf orders the halves for our
+		// direction) and give the unused connection object back.
+		p.free = append(p.free, conn)
 		return conn2, half2, rev2
 	}
 	p.conns[k] = conn
